@@ -102,7 +102,8 @@ class Plain(Space):
     def cases(self):
         for n in range(1, self.maxn + 1):
             for ks in itertools.product(range(len(self.WORDS)), repeat=n):
-                for seps in itertools.product((" ", "  ", "\n", "\n\n", "\n  "), repeat=n - 1):
+                # (the last three were appended later: a whitespace-only line between blank lines, a tab, three newlines)
+                for seps in itertools.product((" ", "  ", "\n", "\n\n", "\n  ", "\n\n \n\n", "\t", "\n\n\n"), repeat=n - 1):
                     for w in self.widths:
                         yield (ks, seps, w)
 
